@@ -311,11 +311,20 @@ fn main() {
     std::fs::create_dir_all(outdir).unwrap();
     let mk = |n: &str| BufWriter::new(File::create(format!("{}/{}", outdir, n)).unwrap());
     let mut out = Out { req: mk("req.txt"), rust: mk("rust.txt"), oracle: mk("oracle.txt"), lines: 0, fails: 0, dist: BTreeMap::new(), samples: vec![] };
-    let rt = tokio::runtime::Builder::new_current_thread().build().unwrap();
     let mut rng = Rng::new(seed);
     for _ in 0..cases {
         let mut r = rng.fork();
-        rt.block_on(scenario(&mut out, &mut r));
+        let start = out.lines;
+        let res = std::panic::catch_unwind(std::panic::AssertUnwindSafe(|| {
+            let rt = tokio::runtime::Builder::new_current_thread().build().unwrap();
+            rt.block_on(scenario(&mut out, &mut r));
+        }));
+        if res.is_err() {
+            // the discoverer (or the client under it) panicked while the bus events of this scenario were
+            // delivered: keep the streams aligned and report the scenario as the failing history
+            out.emit("ddrain", "PANIC");
+            out.fail("the discoverer panicked while handling the bus events of this scenario", &format!("scenario starting at line {}", start + 1));
+        }
     }
     out.req.flush().unwrap();
     out.rust.flush().unwrap();
